@@ -5,14 +5,17 @@ import GrafeoModel.Props.C01SI
 import GrafeoModel.Props.C03
 import GrafeoModel.Props.C04
 import GrafeoModel.Props.C05
+import GrafeoModel.Props.C05b
 import GrafeoModel.Props.C06
 import GrafeoModel.Props.C08Perm
 import GrafeoModel.Props.C09
 import GrafeoModel.Props.C10
 import GrafeoModel.Props.C11
+import GrafeoModel.Props.C11b
 import GrafeoModel.Props.C12
 import GrafeoModel.Props.C13
 import GrafeoModel.Props.C14
+import GrafeoModel.Props.C14Paths
 import GrafeoModel.Props.C15
 import GrafeoModel.Props.C16
 import GrafeoModel.Props.C17
